@@ -23,6 +23,9 @@ type Ctx struct {
 	labels     []string
 	nontrivial bool
 	Hung       bool
+	// Abandoned: a *reference* call (not the call under judgement) did not return; the shard stops
+	// gracefully without a verdict on this case (another property owns that defect).
+	Abandoned  bool
 	Tier       string
 	Replaying  bool
 	Shard      int
@@ -159,6 +162,14 @@ func TestProp(t *testing.T) {
 		ctx.nontrivial = false
 		err = safeCheck(p, c, ctx)
 		stats.Case(js, ctx.nontrivial, ctx.labels)
+		if ctx.Abandoned && !ctx.Hung {
+			stats.Count("abandoned_reference_call_hung", 1)
+			stats.Note("stopped early: a reference call did not return (not judged by this property)")
+			fmt.Printf("ABANDONED property=%s shard=%d\n", id, shard)
+			writeReplay(filepath.Join(harness.Root(), "replays", fmt.Sprintf("%s-abandoned-s%d.json", id, shard)), id, "abandoned", js, fmt.Errorf("reference call did not return"))
+			finish()
+			os.Exit(0)
+		}
 		if ctx.Hung {
 			if err == nil {
 				err = fmt.Errorf("library call did not return within the deadline")
